@@ -127,7 +127,7 @@ class Shared:
     def _norm(self, idx):
         if not isinstance(idx, tuple):
             idx = (idx,)
-        return tuple(int(i) % self.shape[k] for k, i in enumerate(idx))
+        return tuple((int(i) % self.shape[k]) if self.shape[k] else int(i) for k, i in enumerate(idx))
 
     def __getitem__(self, idx):
         if isinstance(idx, tuple) and len(idx) == self.ndim and all(np.ndim(i) == 0 and not isinstance(i, slice) for i in idx) \
@@ -143,14 +143,29 @@ class Shared:
         self.a[idx] = v
 
 
+def _delegate(op):
+    def f(self, *others):
+        return getattr(self.a, op)(*[o.a if isinstance(o, Shared) else o for o in others])
+    return f
+
+
+for _op in ('add', 'sub', 'mul', 'truediv', 'floordiv', 'mod', 'pow', 'radd', 'rsub', 'rmul', 'rtruediv', 'rfloordiv', 'rmod', 'rpow',
+            'neg', 'pos', 'abs', 'lt', 'le', 'gt', 'ge', 'and', 'or', 'invert'):
+    setattr(Shared, f'__{_op}__', _delegate(f'__{_op}__'))          # whole-array arithmetic: plain arrays, no yield point
+
+
 class _Rewrite(ast.NodeTransformer):
     def __init__(self, share=()):
         self.n = 0
-        self.share = set(share)
+        # share='*': every array bound to a local name OUTSIDE the parallel loops is visible to all threads (scratch buffers included);
+        # names bound inside a prange body are thread-private
+        self.share_all = (share == '*')
+        self.share = set() if self.share_all else set(share)
+        self.in_par = 0
 
     def visit_Assign(self, node):
         self.generic_visit(node)
-        if len(node.targets) == 1 and isinstance(node.targets[0], ast.Name) and node.targets[0].id in self.share:
+        if self.in_par == 0 and len(node.targets) == 1 and isinstance(node.targets[0], ast.Name) and (self.share_all or node.targets[0].id in self.share):
             nm = node.targets[0].id
             wrap = ast.Assign(targets=[ast.Name(id=nm, ctx=ast.Store())],
                               value=ast.Call(func=ast.Name(id='__share', ctx=ast.Load()),
@@ -159,9 +174,12 @@ class _Rewrite(ast.NodeTransformer):
         return node
 
     def visit_For(self, node):
-        self.generic_visit(node)
         it = node.iter
-        if isinstance(it, ast.Call) and isinstance(it.func, ast.Attribute) and it.func.attr == 'prange' and len(it.args) == 1:
+        is_par = isinstance(it, ast.Call) and isinstance(it.func, ast.Attribute) and it.func.attr == 'prange' and len(it.args) == 1
+        self.in_par += 1 if is_par else 0
+        self.generic_visit(node)
+        self.in_par -= 1 if is_par else 0
+        if is_par:
             self.n += 1
             fname = f'__prange_body_{self.n}'
             fdef = ast.FunctionDef(name=fname, args=ast.arguments(posonlyargs=[], args=[ast.arg(arg=node.target.id)], kwonlyargs=[], kw_defaults=[], defaults=[]),
@@ -313,7 +331,7 @@ def replay_tsc(n1d, p, o, Q, max_schedules=40, drop=()):
     for s in range(p):
         tsc._tsc_scatter.py_func(pp[starts[s]:starts[s + 1]], ref, box, weights=wp[starts[s]:starts[s + 1]], offset=off)
     def build(sc, hook):
-        fn = threaded_source(tsc._tsc_parallel, sc)
+        fn = threaded_source(tsc._tsc_parallel, sc, share='*')
         fn.__globals__['__par'] = hook(sc.par)
         g = Shared(np.zeros(shape), 'dens', sc)
         return lambda: (fn(pp, starts, g, box, wp, off), g.a)[1]
